@@ -104,6 +104,10 @@ def history_c03(r, quick):
     for i in range(3 if quick else 4):
         order = names[:]
         r.shuffle(order)
+        if i % 2:
+            # every plain helper defined AFTER the last memento function: what the memento functions reach through a module
+            # attribute does not exist yet when they are defined, and no later registration makes anybody look again
+            order = [n for n in order if n.startswith("m")] + [n for n in order if not n.startswith("m")]
         steps.append({"do": "proc", "hashseed": str([0, 1, 2, 3, 77, 12345][i % 6] if i else 0), "order": order})
         q = mems[:]
         r.shuffle(q)
@@ -534,7 +538,7 @@ def replay_version_model(rep, wd, quick):
 
 
 GEN = {"C01": history_c01, "C03": history_c03, "C13": history_c13}
-NJOBS = {"C01": (36, 1200), "C03": (24, 300), "C13": (36, 1500)}
+NJOBS = {"C01": (36, 1200), "C03": (30, 300), "C13": (36, 1500)}
 
 
 def merge_truth(events):
